@@ -1,7 +1,7 @@
 (* props/C05.v -- property C05: point and interval scores equal their textbook definitions on every input.
    Statements only; every proof is `exact <lemma>` into coq/proofs/C05.v.  gen_* are the kernels regenerated
    from /repo's current source by tools/py2gallina.py on every run. *)
-From V Require Import lib.Tree gen.Gen_quantile_loss gen.Gen_functions gen.Gen_interval gen.Gen_standard model.C05 proofs.C05.
+From V Require Import lib.Tree gen.Gen_quantile_loss gen.Gen_functions gen.Gen_interval gen.Gen_standard model.C05 proofs.C05 proofs.C05_angular.
 
 (* quantile_score's kernel is the pinball loss alpha*max(o-f,0) + (1-alpha)*max(f-o,0), for every rational
    forecast, observation and level (the tie f = o included) *)
@@ -86,6 +86,21 @@ Theorem C05_angular_symmetric : forall a b : Q,
   gen_angular_difference (XFin a) (XFin b) =x= gen_angular_difference (XFin b) (XFin a).
 Proof. exact angular_symmetric. Qed.
 Print Assumptions C05_angular_symmetric.
+
+(* ... 360-periodic in each argument (any integer number of turns), and equal to the distance from a - b to the
+   nearest multiple of 360 *)
+Theorem C05_angular_periodic_left : forall (a b : Q) (k : Z),
+  gen_angular_difference (XFin (a + 360 * inject_Z k)) (XFin b) =x= gen_angular_difference (XFin a) (XFin b).
+Proof. exact angular_periodic_left. Qed.
+Print Assumptions C05_angular_periodic_left.
+Theorem C05_angular_periodic_right : forall (a b : Q) (k : Z),
+  gen_angular_difference (XFin a) (XFin (b + 360 * inject_Z k)) =x= gen_angular_difference (XFin a) (XFin b).
+Proof. exact angular_periodic_right. Qed.
+Print Assumptions C05_angular_periodic_right.
+Theorem C05_angular_is_nearest_turn : forall (a b : Q) (n : Z),
+  exists r, gen_angular_difference (XFin a) (XFin b) =x= XFin r /\ r <= Qabs (a - b - 360 * inject_Z n).
+Proof. exact angular_is_nearest. Qed.
+Print Assumptions C05_angular_is_nearest_turn.
 
 (* non-vacuity of the guarded statements *)
 Example C05_levels_satisfiable : 0 < 1 # 10 /\ (1 # 10) < 1 /\ 0 < 9 # 10 /\ (9 # 10) < 1.
